@@ -410,13 +410,13 @@ fn check_tfm(idx: u64, b0: &[u8], origin: &dyn Fn() -> Value, acc: &mut Acc) {
     // compiled programs on both files
     for (which, b, r) in [("original", b0, &r0), ("canonical", b1.as_slice(), &r1)] {
         if let Some(Diff(what, a, g)) = compiled_vs_model(b, r, false) {
-            // Finding class D23: TeX can reach a word with skip byte > 128 while walking a chain
+            // Finding class D40: TeX can reach a word with skip byte > 128 while walking a chain
             // (predicate on the file) and the compiled program executes it as the ligature/kern
             // command its bytes spell, as TFtoPL §91 enters it into its loop table (adjusted model).
             let f = lig_font(r);
             let reaches_stop_word = (0..=256).any(|x| lk::chain(&f, x).iter().any(|(_, w)| w[0] > 128));
             if reaches_stop_word && compiled_vs_model(b, r, true).is_none() {
-                acc.known("D23", idx, || {
+                acc.known("D40", idx, || {
                     let mut v = case();
                     v["which"] = json!(which);
                     v["difference"] = json!(what);
@@ -424,7 +424,7 @@ fn check_tfm(idx: u64, b0: &[u8], origin: &dyn Fn() -> Value, acc: &mut Acc) {
                     v["observed"] = json!(g);
                     v
                 });
-                acc.class("differs from TeX, equals TFtoPL's phantom reading of a stop word (D23)");
+                acc.class("differs from TeX, equals TFtoPL's phantom reading of a stop word (D40)");
                 return;
             }
             fail!(a, g, format!("{which} file: {what}"));
